@@ -127,7 +127,8 @@ Proof.
     destruct r' as [|d r'']; [discriminate|]. cbn [app]. rewrite Hhead.
     unfold read_number. change (d :: r'' ++ rest) with ((d :: r'') ++ rest).
     rewrite (span_app is_num_char) by first [ assumption | solve [apply rest_ok_num; assumption] ].
-    simpl in Hmark. rewrite Hmark. reflexivity.
+    change (existsb is_float_mark (45%N :: d :: r'')) with (existsb is_float_mark (d :: r'')) in Hmark.
+    rewrite Hmark. reflexivity.
   - rewrite orb_false_r in Hhead. rewrite Hhead.
     unfold read_number. change (c :: r' ++ rest) with ((c :: r') ++ rest).
     rewrite (span_app is_num_char) by
@@ -202,10 +203,9 @@ Lemma escape_head c : exists h t, json_escape_char c = h :: t /\ N.eqb h 34 = fa
 Proof.
   unfold json_escape_char.
   repeat match goal with |- context [if ?b then _ else _] => destruct b eqn:? end;
-    try (eexists; eexists; split; [reflexivity|reflexivity]).
-  - exists c, []. split; [reflexivity|]. lia.
-  - unfold u_escape. eexists; eexists; split; [reflexivity|reflexivity].
-  - unfold u_escape. eexists; eexists; split; [simpl; reflexivity|reflexivity].
+    try (eexists; eexists; split; [reflexivity|reflexivity]);
+    try (exists c, []; split; [reflexivity|lia]);
+    try (unfold u_escape; eexists; eexists; split; [simpl; reflexivity|reflexivity]).
 Qed.
 
 Lemma scalar_token_json_string x rest :
@@ -216,11 +216,181 @@ Proof.
   pose proof (read_string_json x rest Hx) as Hs. unfold scalar_token.
   change (N.eqb 34 34) with true. cbv beta iota.
   destruct x as [|c x].
-  - cbn [flat_map app] in *. destruct rest as [|c3 r]; [rewrite Hs; reflexivity|].
-    rewrite (rest_ok_quote _ _ Hr), andb_false_r, Hs. reflexivity.
+  - cbn [flat_map app] in *. destruct rest as [|c3 r]; [reflexivity|].
+    cbv beta iota. unfold char in *. rewrite (rest_ok_quote _ _ Hr), andb_false_r, Hs. reflexivity.
   - cbn [flat_map] in *. destruct (escape_head c) as (h & t & He & Hh). rewrite He in *.
     rewrite <- !app_assoc in *. cbn [app] in *.
     destruct (t ++ flat_map json_escape_char x ++ 34%N :: rest) as [|c3 r3] eqn:Hr3.
-    + rewrite Hs. reflexivity.
-    + rewrite Hh. cbn [andb]. rewrite Hs. reflexivity.
+    + exfalso. apply app_eq_nil in Hr3 as [_ Hr3]. apply app_eq_nil in Hr3 as [_ Hr3]. discriminate.
+    + cbv beta iota. unfold char in *. rewrite Hh. cbn [andb]. rewrite Hr3. cbv beta iota. rewrite Hs. reflexivity.
+Qed.
+
+(* ------------------------------------------------------------------ *)
+(* values and lists *)
+
+Fixpoint items_text (l : list pv) : str :=
+  match l with
+  | [] => []
+  | x :: l' => json_dumps x ++ match l' with [] => [] | _ => comma_sp ++ items_text l' end
+  end.
+
+Lemma json_dumps_list l : json_dumps (PList l) = 91%N :: items_text l ++ [93%N].
+Proof.
+  reflexivity.
+Qed.
+
+Lemma plain_lit_list l : plain_lit (PList l) = LList (map plain_lit l).
+Proof. reflexivity. Qed.
+
+Definition jok (v : pv) : Prop := scalar_denotable v = true /\ has_astral v = false.
+
+Lemma jok_list l : jok (PList l) -> Forall jok l.
+Proof.
+  intros [Hd Ha]. induction l as [|x l IH]; constructor.
+  - simpl in Hd, Ha. apply andb_true_iff in Hd as [Hd _]. apply orb_false_iff in Ha as [Ha _]. split; assumption.
+  - apply IH; simpl in Hd, Ha.
+    + apply andb_true_iff in Hd as [_ Hd]. exact Hd.
+    + apply orb_false_iff in Ha as [_ Ha]. exact Ha.
+Qed.
+
+Lemma no_astral_chars x : existsb (fun c => N.leb 65536 c) x = false -> forallb (fun c => N.ltb c 65536) x = true.
+Proof.
+  induction x as [|c x IH]; simpl; [reflexivity|]. intros H. apply orb_false_iff in H as [Hc Hx].
+  rewrite (IH Hx). assert (Hl : N.ltb c 65536 = true) by lia. rewrite Hl. reflexivity.
+Qed.
+
+Lemma dec_of_Z_head z : exists c t, dec_of_Z z = c :: t /\ (is_digit c = true \/ c = 45%N).
+Proof.
+  destruct z as [|p|p].
+  - exists 48%N, []. split; [reflexivity|left; reflexivity].
+  - destruct (to_uint_head' p) as (c & r & Hd & Hc). exists c, r. split; [exact Hd|left; exact Hc].
+  - eexists; eexists; split; [reflexivity|right; reflexivity].
+Qed.
+
+Lemma float_head r : float_text_ok r = true -> exists c t, r = c :: t /\ (is_digit c = true \/ c = 45%N).
+Proof.
+  unfold float_text_ok. intros H. apply andb_true_iff in H as [_ H]. destruct r as [|c t]; [discriminate|].
+  exists c, t. split; [reflexivity|]. apply orb_true_iff in H as [H|H]; [left; exact H|right].
+  apply andb_true_iff in H as [H _]. apply N.eqb_eq in H. exact H.
+Qed.
+
+Lemma head_facts c : is_digit c = true \/ c = 45%N ->
+  is_ignored c = false /\ N.eqb c 91 = false /\ N.eqb c 123 = false /\ N.eqb c 93 = false.
+Proof.
+  intros [H| ->]; [|repeat split; reflexivity].
+  destruct (digit_facts' c H) as (_ & _ & Hi & _ & _ & H91 & H123 & H93). auto.
+Qed.
+
+Lemma parse_value_scalar' f c r :
+  is_ignored c = false -> N.eqb c 91 = false -> N.eqb c 123 = false ->
+  parse_value (S f) (c :: r) = scalar_token (c :: r).
+Proof. intros H1 H2 H3. cbn [parse_value skip_ignored]. rewrite H1, H2, H3. reflexivity. Qed.
+
+Lemma parse_items_step f c r acc :
+  is_ignored c = false -> N.eqb c 93 = false ->
+  parse_items (S f) (c :: r) acc =
+  match parse_value f (c :: r) with
+  | Some (v, rest) => parse_items f rest (v :: acc)
+  | None => None
+  end.
+Proof. intros H1 H2. cbn [parse_items skip_ignored]. rewrite H1, H2. reflexivity. Qed.
+
+Lemma parse_items_close f rest acc : parse_items (S f) (93%N :: rest) acc = Some (LList (rev acc), rest).
+Proof. reflexivity. Qed.
+
+Lemma parse_items_comma f s acc : parse_items (S f) (comma_sp ++ s) acc = parse_items (S f) s acc.
+Proof. reflexivity. Qed.
+
+(* first character of a rendered value *)
+Lemma json_head v : jok v ->
+  exists c t, json_dumps v = c :: t /\ is_ignored c = false /\ N.eqb c 93 = false /\
+              ((N.eqb c 91 = false /\ N.eqb c 123 = false) \/ exists l, v = PList l).
+Proof.
+  intros [Hd Ha]. destruct v as [|b|z|r|x|l|kvs].
+  - eexists; eexists; split; [reflexivity|]. repeat split; try reflexivity. left; split; reflexivity.
+  - destruct b; (eexists; eexists; split; [reflexivity|]; repeat split; try reflexivity; left; split; reflexivity).
+  - destruct (dec_of_Z_head z) as (c & t & Hz & Hc). destruct (head_facts c Hc) as (H1 & H2 & H3 & H4).
+    exists c, t. simpl. auto 10.
+  - destruct (float_head r Hd) as (c & t & Hz & Hc). destruct (head_facts c Hc) as (H1 & H2 & H3 & H4).
+    exists c, t. simpl. auto 10.
+  - eexists; eexists; split; [reflexivity|]. repeat split; try reflexivity. left; split; reflexivity.
+  - rewrite json_dumps_list. eexists; eexists; split; [reflexivity|]. repeat split; try reflexivity.
+    right. exists l. reflexivity.
+  - discriminate.
+Qed.
+
+Definition reads_back (v : pv) : Prop :=
+  jok v -> forall fuel rest, rest_ok rest = true -> length (json_dumps v) < fuel ->
+  parse_value fuel (json_dumps v ++ rest) = Some (plain_lit v, rest).
+
+Lemma items_parse l : Forall reads_back l -> Forall jok l ->
+  forall fuel acc rest, length (items_text l) + 1 < fuel ->
+  parse_items fuel (items_text l ++ 93%N :: rest) acc = Some (LList (rev acc ++ map plain_lit l), rest).
+Proof.
+  induction 1 as [|x l Hx Hl IH]; intros Hj fuel acc rest Hf.
+  - destruct fuel as [|f]; [simpl in Hf; lia|]. simpl. rewrite List.app_nil_r. reflexivity.
+  - inversion Hj as [|? ? Hjx Hjl]; subst. destruct fuel as [|f]; [lia|].
+    destruct (json_head x Hjx) as (c & t & Hh & Hi & H93 & _).
+    assert (Hlen : 1 <= length (json_dumps x)) by (rewrite Hh; simpl; lia).
+    cbn [items_text] in *. rewrite List.app_length in Hf. rewrite <- List.app_assoc.
+    set (rest' := (match l with [] => [] | _ :: _ => comma_sp ++ items_text l end) ++ 93%N :: rest).
+    assert (Hro : rest_ok rest' = true) by (unfold rest'; destruct l; reflexivity).
+    assert (Hpv : parse_value f (json_dumps x ++ rest') = Some (plain_lit x, rest'))
+      by (apply Hx; auto; lia).
+    assert (Hstep : parse_items (S f) (json_dumps x ++ rest') acc = parse_items f rest' (plain_lit x :: acc)).
+    { rewrite Hh in Hpv |- *. cbn [app] in Hpv |- *. rewrite parse_items_step by assumption.
+      unfold char, str in *. rewrite Hpv. reflexivity. }
+    rewrite Hstep. unfold rest'. destruct l as [|y l'].
+    + cbn [app]. destruct f as [|f']; [lia|]. rewrite parse_items_close. simpl. reflexivity.
+    + rewrite <- List.app_assoc. destruct f as [|f']; [lia|]. rewrite parse_items_comma.
+      rewrite (IH Hjl (S f') (plain_lit x :: acc) rest).
+      * simpl. rewrite <- List.app_assoc. reflexivity.
+      * unfold comma_sp in Hf. rewrite List.app_length in Hf. simpl in Hf. simpl. lia.
+Qed.
+
+Theorem json_value_reads_back v : reads_back v.
+Proof.
+  induction v as [|b|z|r|x|l IH|kvs IH] using pv_ind'; intros Hj fuel rest Hr Hf.
+  - destruct fuel as [|f]; [lia|]. change (json_dumps PNone) with (S_ "null").
+    change (S_ "null" ++ rest) with (110%N :: (S_ "ull" ++ rest)).
+    rewrite parse_value_scalar' by reflexivity.
+    change (110%N :: (S_ "ull" ++ rest)) with (S_ "null" ++ rest).
+    apply scalar_token_keyword; auto; repeat split; reflexivity.
+  - destruct fuel as [|f]; [lia|]. destruct b.
+    + change (json_dumps (PBool true)) with (S_ "true").
+      change (S_ "true" ++ rest) with (116%N :: (S_ "rue" ++ rest)).
+      rewrite parse_value_scalar' by reflexivity.
+      change (116%N :: (S_ "rue" ++ rest)) with (S_ "true" ++ rest).
+      apply scalar_token_keyword; auto; repeat split; reflexivity.
+    + change (json_dumps (PBool false)) with (S_ "false").
+      change (S_ "false" ++ rest) with (102%N :: (S_ "alse" ++ rest)).
+      rewrite parse_value_scalar' by reflexivity.
+      change (102%N :: (S_ "alse" ++ rest)) with (S_ "false" ++ rest).
+      apply scalar_token_keyword; auto; repeat split; reflexivity.
+  - destruct fuel as [|f]; [lia|]. change (json_dumps (PInt z)) with (dec_of_Z z).
+    destruct (dec_of_Z_head z) as (c & t & Hz & Hc). destruct (head_facts c Hc) as (H1 & H2 & H3 & _).
+    pose proof (scalar_token_int z rest Hr) as Hs. rewrite Hz in *. cbn [app] in *.
+    rewrite parse_value_scalar' by assumption. exact Hs.
+  - destruct fuel as [|f]; [lia|]. destruct Hj as [Hd _]. change (json_dumps (PFloat r)) with r.
+    destruct (float_head r Hd) as (c & t & Hz & Hc). destruct (head_facts c Hc) as (H1 & H2 & H3 & _).
+    pose proof (scalar_token_float r rest Hd Hr) as Hs. rewrite Hz in *. cbn [app] in *.
+    rewrite parse_value_scalar' by assumption. exact Hs.
+  - destruct fuel as [|f]; [lia|]. destruct Hj as [_ Ha]. change (json_dumps (PStr x)) with (json_string x).
+    pose proof (scalar_token_json_string x rest (no_astral_chars x Ha) Hr) as Hs.
+    unfold json_string in *. cbn [app] in *. rewrite parse_value_scalar' by reflexivity. exact Hs.
+  - destruct fuel as [|f]; [lia|]. rewrite json_dumps_list in *. rewrite plain_lit_list.
+    cbn [app]. cbn [parse_value skip_ignored]. change (is_ignored 91) with false. change (N.eqb 91 91) with true.
+    cbv beta iota. rewrite <- List.app_assoc. cbn [app]. change (N.eqb 91 91) with true. cbv beta iota.
+    pose proof (items_parse l IH (jok_list l Hj) f [] rest) as Hi.
+    simpl in Hf. rewrite List.app_length in Hf. simpl in Hf.
+    etransitivity; [apply Hi; lia|reflexivity].
+  - destruct Hj as [Hd _]. discriminate.
+Qed.
+
+Theorem parse_lit_json v : scalar_denotable v = true -> has_astral v = false ->
+  parse_lit (json_dumps v) = Some (plain_lit v).
+Proof.
+  intros Hd Ha. unfold parse_lit.
+  pose proof (json_value_reads_back v (conj Hd Ha) (S (S (length (json_dumps v)))) [] eq_refl) as H.
+  rewrite List.app_nil_r in H. rewrite H by lia. reflexivity.
 Qed.
